@@ -203,6 +203,17 @@ static VIA_ADD: std::sync::atomic::AtomicBool = std::sync::atomic::AtomicBool::n
 /// `VIA filewriter`: `log_to_file_and_writer` — the file writer next to a second writer (the
 /// fan-out layer `MultiWriter` serves both)
 static VIA_FW: std::sync::atomic::AtomicBool = std::sync::atomic::AtomicBool::new(false);
+/// `VIA addwriter-failing`: next to the additional file writer `{flw}` the logger has a primary writer
+/// and further additional writers whose `reopen_output()` / `rotate()` FAIL — the handle must still
+/// reach every writer ("all of them will be attempted")
+static VIA_FAILING: std::sync::atomic::AtomicBool = std::sync::atomic::AtomicBool::new(false);
+struct FailingWriter;
+impl LogWriter for FailingWriter {
+    fn write(&self, _now: &mut DeferredNow, _record: &Record) -> std::io::Result<()> { Ok(()) }
+    fn flush(&self) -> std::io::Result<()> { Ok(()) }
+    fn reopen_output(&self) -> Result<(), flexi_logger::FlexiLoggerError> { Err(flexi_logger::FlexiLoggerError::NoFileLogger) }
+    fn rotate(&self) -> Result<(), flexi_logger::FlexiLoggerError> { Err(flexi_logger::FlexiLoggerError::NoFileLogger) }
+}
 /// the mode a `Logger` hands to its file writer (mirror of `Model/WMode.withoutFlushing`; the write
 /// mode cannot be changed by `reset_flw`, so the new builder must name exactly this one)
 pub fn without_flushing(m: WriteMode) -> WriteMode {
@@ -224,8 +235,15 @@ fn lw_target() -> &'static str { if VIA_ADD.load(std::sync::atomic::Ordering::Se
 pub fn logger(dir: &Path, sp: &SpecP, cfg: &CfgP, mode: Option<WriteMode>, errchan: &Path) -> (Box<dyn log::Log>, flexi_logger::LoggerHandle) {
     if VIA_ADD.load(std::sync::atomic::Ordering::SeqCst) {
         let w = builder(dir, sp, cfg, false, mode).try_build().expect("try_build");
-        return flexi_logger::Logger::with(flexi_logger::LogSpecification::trace())
-            .do_not_log()
+        let l = flexi_logger::Logger::with(flexi_logger::LogSpecification::trace());
+        let l = if VIA_FAILING.load(std::sync::atomic::Ordering::SeqCst) {
+            // (the additional writers live in a hash map: with several failing ones around it, the
+            //  file writer is visited after a failing one whatever the order)
+            let mut l = l.log_to_writer(Box::new(FailingWriter));
+            for n in ["a", "b", "c", "d", "e", "f", "g", "h"] { l = l.add_writer(n, Box::new(FailingWriter)); }
+            l
+        } else { l.do_not_log() };
+        return l
             .add_writer("flw", Box::new(w))
             .error_channel(flexi_logger::ErrorChannel::File(errchan.to_path_buf()))
             .panic_if_error_channel_is_broken(false)
@@ -496,6 +514,8 @@ pub struct Hist {
     pub recs: Vec<(Vec<u8>, u64)>,
     pub forced: bool,      // a forced rotation happened
     pub forced_at: Vec<usize>, // … after that many accepted records (op ROT)
+    pub forced_times: Vec<(usize, u64)>, // … and at which clock reading
+    pub reopen_mark: Option<(usize, usize)>, // reopen_output() returned after that many records / rotations (cleared by the next external rename/remove, reset, restart)
     pub forced_unpositioned: bool, // … through RP/CROT (crash cases): position not recorded
     pub restarts: u64,
     pub faulty: bool,      // some op carried an injected fault
@@ -539,6 +559,23 @@ fn oracles(ctx: &mut Ctx, case_id: &str, li: usize, f: &Flw, h: &Hist, at_sync_p
             Ok(now) if &now == c => {}
             Ok(now) => ctx.report.fail(case_id, "foreign-file-modified", &format!("line {li}: foreign file {n:?} changed from {:?} to {:?}", String::from_utf8_lossy(c), String::from_utf8_lossy(&now))),
             Err(_) => ctx.report.fail(case_id, "foreign-file-removed", &format!("line {li}: foreign file {n:?} does not exist any more (directory: {:?})", list_dir(&f.dir, &[]))),
+        }
+    }
+    // --- reopen_output (C18): the records logged after it has returned are in a file at the ORIGINAL path
+    if let (Some((k, nfiles)), true) = (h.reopen_mark, at_sync_point) {
+        let direct = f.cfg.rot.as_ref().map_or(false, |r| r.naming == "numd" || r.naming == "tsd");
+        if !direct && !h.faulty && h.restarts == 0 && h.recs.len() > k && h.crashed.is_none() {
+            let post: Vec<u8> = h.recs[k..].iter().flat_map(|r| r.0.clone()).collect();
+            let p = f.current_path();
+            let cur = std::fs::read(&p).unwrap_or_default();
+            // (the mark holds the number of files right after the reopen: a rotation since then adds files
+            //  and moves the records on — then the stream oracle and the model are the judges)
+            let rotated_since = list_dir(&f.dir, &[]).len() != nfiles;
+            if !rotated_since && (!p.exists() || !cur.ends_with(&post)) {
+                ctx.report.fail(case_id, "reopen-not-at-original-path", &format!(
+                    "line {li}: reopen_output() has returned and {} record(s) were logged afterwards, but the file at the original path {:?} {} (directory: {:?})",
+                    h.recs.len() - k, p.file_name().unwrap_or_default(), if p.exists() { "does not end with them" } else { "does not exist" }, list_dir(&f.dir, &[])));
+            }
         }
     }
     let mut order = f.reading_order();
@@ -677,6 +714,31 @@ fn oracles(ctx: &mut Ctx, case_id: &str, li: usize, f: &Flw, h: &Hist, at_sync_p
             if h.forced && same_file && !same_period {
                 ctx.report.fail(case_id, "age-rule", &format!("line {li}: age '{a}': one file holds records of two periods ({} and {})", h.recs[i - 1].1, h.recs[i].1));
                 break;
+            }
+        }
+        // with forced rotations (their positions and clock readings are known): a forced rotation
+        // starts a file at ITS time; the criterion closes a file exactly when a record arrives in a
+        // later period than the one in which the current file was started — so the number of
+        // files is determined (a rotation too many leaves an empty file, one too few mixes periods)
+        if h.forced && h.forced_times.len() == h.forced_at.len() && h.forced_at.len() as u64 == h.rotations_forced_total() {
+            let mut files = 0usize;
+            let mut started: Option<u64> = None;
+            for i in 0..=h.recs.len() {
+                for (_, t) in h.forced_times.iter().filter(|(p, _)| *p == i) {
+                    if started.is_some() { files += 1; started = Some(*t); }
+                }
+                if i < h.recs.len() {
+                    let t = h.recs[i].1;
+                    match started {
+                        None => { files = 1; started = Some(t); }
+                        Some(s0) => if age_trunc(a, s0) != age_trunc(a, t) { files += 1; started = Some(t); }
+                    }
+                }
+            }
+            if files != contents.len() {
+                ctx.report.fail(case_id, "age-rule", &format!(
+                    "line {li}: age '{a}': records at {:?}, forced rotations (after #records, at) {:?}: the rule gives {files} files, found {} ({order:?}, sizes {:?})",
+                    h.recs.iter().map(|r| r.1).collect::<Vec<_>>(), h.forced_times, contents.len(), contents.iter().map(Vec::len).collect::<Vec<_>>()));
             }
         }
         // timestamp-named files carry the time at which their content was started
@@ -897,6 +959,7 @@ fn execute_inner(ctx: &mut Ctx, lines: &[String]) -> Vec<String> {
     CRLF.store(false, std::sync::atomic::Ordering::SeqCst);
     VIA_ADD.store(false, std::sync::atomic::Ordering::SeqCst);
     VIA_FW.store(false, std::sync::atomic::Ordering::SeqCst);
+    VIA_FAILING.store(false, std::sync::atomic::Ordering::SeqCst);
     let mut bg_lockstep = false;
     let mut bg_adversarial = false;
     let mut nocheck_foreign = false;
@@ -1002,8 +1065,9 @@ fn execute_inner(ctx: &mut Ctx, lines: &[String]) -> Vec<String> {
                 "ok".into()
             }
             ["VIA", v] => {
-                f.via_logger = *v == "logger" || *v == "addwriter" || *v == "filewriter";
-                VIA_ADD.store(*v == "addwriter", std::sync::atomic::Ordering::SeqCst);
+                f.via_logger = *v == "logger" || *v == "addwriter" || *v == "filewriter" || *v == "addwriter-failing";
+                VIA_ADD.store(*v == "addwriter" || *v == "addwriter-failing", std::sync::atomic::Ordering::SeqCst);
+                VIA_FAILING.store(*v == "addwriter-failing", std::sync::atomic::Ordering::SeqCst);
                 VIA_FW.store(*v == "filewriter", std::sync::atomic::Ordering::SeqCst);
                 "ok".into()
             }
@@ -1032,9 +1096,11 @@ fn execute_inner(ctx: &mut Ctx, lines: &[String]) -> Vec<String> {
                     None => "ok".into(),
                     Some((_, hs)) => {
                         let r = with_clock(now, || if t[0] == "LREOPEN" { hs[0].reopen_output() } else { hs[0].trigger_rotation() });
-                        if t[0] == "LREOPEN" { h.unflushed = false; }
-                        if t[0] == "LROT" && r.is_ok() && f.cfg.rot.is_some() { h.rotations += 1; h.forced = true; h.forced_at.push(h.recs.len()); }
-                        if r.is_ok() { "ok".into() } else { "err".into() }
+                        if t[0] == "LREOPEN" { h.unflushed = false; h.reopen_mark = Some((h.recs.len(), list_dir(&dir, &[]).len())); }
+                        if t[0] == "LROT" && (r.is_ok() || VIA_FAILING.load(std::sync::atomic::Ordering::SeqCst)) && f.cfg.rot.is_some() { h.rotations += 1; h.forced = true; h.forced_at.push(h.recs.len()); h.forced_times.push((h.recs.len(), now)); }
+                        // with failing writers around, the call reports THEIR failure — and must have reached the file writer all the same
+                        if VIA_FAILING.load(std::sync::atomic::Ordering::SeqCst) { if r.is_err() { "ok".into() } else { "err: the failure of the other writers was not reported".into() } }
+                        else if r.is_ok() { "ok".into() } else { "err".into() }
                     }
                 }
             }
@@ -1403,6 +1469,7 @@ fn execute_inner(ctx: &mut Ctx, lines: &[String]) -> Vec<String> {
                     h.rotations += 1;
                     h.forced = true;
                     h.forced_at.push(h.recs.len());
+                    h.forced_times.push((h.recs.len(), now));
                 }
                 if r.is_ok() && ev.is_empty() { "ok".into() } else { "err".into() }
             }
@@ -1471,11 +1538,13 @@ fn execute_inner(ctx: &mut Ctx, lines: &[String]) -> Vec<String> {
                 };
                 f.moved_names.clear();
                 h.recs.clear();
+                h.reopen_mark = None;
                 h.reset_seen = true;
                 if r.is_ok() { "ok".into() } else { "err".into() }
             }
             ["EXTREN"] | ["EXTRM"] => {
                 ctx.report.count(&format!("op.{}", t[0]));
+                h.reopen_mark = None;
                 // direct namings: the file written to is the newest one of the family
                 let direct = f.cfg.rot.as_ref().map_or(false, |r| r.naming == "numd" || r.naming == "tsd");
                 let p = if direct {
@@ -1521,6 +1590,7 @@ fn execute_inner(ctx: &mut Ctx, lines: &[String]) -> Vec<String> {
                     let r = with_clock(now, || w.reopen_outputfile());
                     flexi_logger::verif_hooks::set_fault_handler(None);
                     h.unflushed = false;
+                    if r.is_ok() { h.reopen_mark = Some((h.recs.len(), list_dir(&dir, &[]).len())); }
                     if r.is_ok() { "ok".into() } else { "err".into() }
                 }
             }
